@@ -226,7 +226,7 @@ def run(chk):
     C06.d3b(chk, prog)           # ... and merge() itself leaves nothing unmerged on its fast path / groups by the stated predicate (C06-D3, D3b)
     C06.d3(chk, prog)
     chk.clause("D4", "size filter (span >= minimum) and chaining of the pieces (C06-D5 rule)")
-    C06.d5(chk, prog, [(1000, 300, 0), (100, 300, 0), (449, 300, 0), (450, 300, 0), (751, 300, 0), (1798, Fr(800, 3), 0), (299, 300, 300), (300, 300, 300), (9373, 150000, 9374), (9374, 150000, 9374), (250, 100, 0), (350, 100, 0), (450, 100, 0),
+    C06.d5(chk, prog, [(10, 4, 6), (1000, 300, 400), (1000, 300, 0), (100, 300, 0), (449, 300, 0), (450, 300, 0), (751, 300, 0), (1798, Fr(800, 3), 0), (299, 300, 300), (300, 300, 300), (9373, 150000, 9374), (9374, 150000, 9374), (250, 100, 0), (350, 100, 0), (450, 100, 0),
                        (975001, 150000, 9374), (7, 2, 0)])
     d5(chk, prog)
     chk.clause("CLI", "the `target` / `antitarget` command lines: options reach do_target / do_antitarget, the output is written under the given or the default name")
